@@ -5,7 +5,7 @@ from .. import common as C
 from .. import gencases as G
 from .. import rtfamily as R
 
-WITNESS = os.path.join(C.VERIF, "witness")
+WITNESS = C.WITNESS
 F15 = ("State::store_ref(&impl Any) erases the borrow: the safe program witness/src/bin/w_dangling_ref.rs "
        "(store_ref(&s); drop s; try_read_ref()) compiles under #![forbid(unsafe_code)] and reads a dropped object")
 MUST_REJECT = ["w_ref_outlives_context", "w_mutate_state_while_ref_out", "w_bytes_outlive_input",
@@ -17,7 +17,7 @@ def cargo_check(bin_name):
     if not os.path.exists(lock):
         shutil.copy(os.path.join(C.REPO, "Cargo.lock"), lock)
     p = C.run(["cargo", "check", "--offline", "--bin", bin_name], cwd=WITNESS, timeout=1200, check=False,
-              env={"CARGO_TARGET_DIR": os.path.join(C.CACHE, "target-w")})
+              env={"CARGO_TARGET_DIR": os.path.join(C.TBASE, "target-w")})
     errs = [l for l in p.stdout.splitlines() if l.startswith("error")]
     return p.returncode == 0, errs, p.stdout
 
@@ -57,7 +57,7 @@ def check(rep, tier, seed):
     # (1b) a client implementing the public BinaryInput trait with short / long reads: no provided method may build
     # a value out of more bytes than the client handed over
     p = C.run(["cargo", "run", "--offline", "--release", "--quiet", "--bin", "w_adversarial_io"], cwd=WITNESS, timeout=1200,
-              check=False, env={"CARGO_TARGET_DIR": os.path.join(C.CACHE, "target-w")})
+              check=False, env={"CARGO_TARGET_DIR": os.path.join(C.TBASE, "target-w")})
     probes = [l.split(" ") for l in p.stdout.splitlines() if l.startswith("read_")]
     if p.returncode != 0 or len(probes) < 100:
         raise C.Undecided("w_adversarial_io did not run: " + p.stdout[-1500:])
@@ -129,10 +129,10 @@ def check(rep, tier, seed):
     miri = "not run (quick tier)"
     if tier == "thorough":
         p = C.run("cargo +nightly miri run --offline --bin w_dangling_ref", cwd=WITNESS, timeout=3000, check=False,
-                  env={"CARGO_TARGET_DIR": os.path.join(C.CACHE, "target-miri"), "MIRIFLAGS": "-Zmiri-disable-isolation"})
+                  env={"CARGO_TARGET_DIR": os.path.join(C.TBASE, "target-miri"), "MIRIFLAGS": "-Zmiri-disable-isolation"})
         miri = "w_dangling_ref: " + ("undefined behaviour reported (dangling reference)" if "Undefined Behavior" in p.stdout else "no report")
         p2 = C.run("cargo +nightly miri run --offline --bin w_control_ok", cwd=WITNESS, timeout=3000, check=False,
-                   env={"CARGO_TARGET_DIR": os.path.join(C.CACHE, "target-miri")})
+                   env={"CARGO_TARGET_DIR": os.path.join(C.TBASE, "target-miri")})
         miri += "; w_control_ok: " + ("undefined behaviour reported" if "Undefined Behavior" in p2.stdout else "clean")
         if "Undefined Behavior" in p2.stdout:
             bad.append(("witness/src/bin/w_control_ok.rs under Miri", p2.stdout[-400:], "undefined behaviour in a correct client"))
